@@ -37,6 +37,8 @@ fn req_sequence(ops: &[bool], peers: usize, dead_first: bool) -> Verdict {
         // reference machine
         let mut awaiting: Option<Vec<Vec<u8>>> = None;
         let mut sent_ok = 0usize;
+        let mut last_target: Option<usize> = None;
+        let mut refused_since_last_accepted = 0usize;
         for (i, op) in ops.iter().enumerate() {
             let taps_before: Vec<usize> = conns2.iter().map(|c| world::tap_len(c.from_lib)).collect();
             let grew = |before: &Vec<usize>| -> Vec<usize> { conns2.iter().zip(before).map(|(c, b)| world::tap_len(c.from_lib) - b).collect() };
@@ -59,6 +61,7 @@ fn req_sequence(ops: &[bool], peers: usize, dead_first: bool) -> Verdict {
                         format!("call #{} send failed in the idle state with a healthy peer connected: {}", i, e3::err_class(e)),
                     )),
                     (Err(ZmqError::ReturnToSender { message, .. }), true) => {
+                        refused_since_last_accepted += 1;
                         if frames_of(message) != m {
                             viol2.borrow_mut().push(("req/returned-message-not-intact".into(), format!("call #{}: message handed back as {} instead of {}", i, rc::show_frames(&frames_of(message)), rc::show_frames(&m))));
                         }
@@ -72,6 +75,19 @@ fn req_sequence(ops: &[bool], peers: usize, dead_first: bool) -> Verdict {
                         if g.iter().filter(|x| **x > 0).count() != 1 {
                             viol2.borrow_mut().push(("req/send-not-on-exactly-one-peer".into(), format!("call #{}: wire growth per peer {:?}", i, g)));
                         }
+                        // "an out-of-turn call ... leaves the state unchanged": with a stable set of peers the accepted
+                        // requests take turns strictly, whatever refused calls were made in between
+                        if let Some(to) = g.iter().position(|x| *x > 0) {
+                            if !dead_first {
+                                if let Some(prev) = last_target {
+                                    if refused_since_last_accepted > 0 && to != (prev + 1) % conns2.len() {
+                                        viol2.borrow_mut().push(("req/refused-call-changed-the-rotation".into(), format!("call #{}: the previous accepted request went to peer {}, then {} out-of-turn call(s) were refused, and this request went to peer {} instead of peer {}", i, prev, refused_since_last_accepted, to, (prev + 1) % conns2.len())));
+                                    }
+                                }
+                            }
+                            last_target = Some(to);
+                        }
+                        refused_since_last_accepted = 0;
                         awaiting = Some(m);
                         sent_ok += 1;
                     }
@@ -497,6 +513,12 @@ pub fn run(tier: Tier, replay: Option<String>) -> i32 {
             jobs.push(e3::job(format!("C08/rep-same-identity/{}/policy{}", first_exchanges, policy), json!({"case":"rep-same-identity","first_exchanges":first_exchanges,"policy":policy}), tier.pick(2, 3), 300_000, move || rep_same_identity_scenario(first_exchanges, policy)));
         }
     }
+    // the same scenarios with peers that announce an Identity of length 0 / no Identity (every 7th job): the oracle
+    // never looks at the peers' identities, and every connection must still be kept apart
+    let anon: Vec<zvcore::explore::Job> = jobs.iter().filter(|j| !j.name.contains("same-identity")).step_by(7).flat_map(|j| [e3::anon_copy(j, 1), e3::anon_copy(j, 2)]).collect();
+    ck.cov("scenarios_repeated_with_anonymous_peers", anon.len() as u64);
+    let mut jobs = jobs;
+    jobs.extend(anon);
     e3::run_jobs_into(&mut ck, jobs, false);
     let ex = ck.coverage.get("e3_executions").and_then(|v| v.as_u64()).unwrap_or(0);
     ck.cov("states", n_seq as u64 + ck.coverage.get("e3_distinct_outcomes").and_then(|v| v.as_u64()).unwrap_or(0));
